@@ -79,7 +79,7 @@ package text
 //@   assigns nothing
 
 //@ func (r *Reader) Remaining(pos parsley.Pos) (n int)
-//@   props C09,C12,C08,C02,C03
+//@   props C09,C12,C08,C02,C03,C01
 //@   refines parsley.Reader.Remaining
 //@   requires wfReader(r) && inFile(r.file, pos)
 //@   ensures  n == r.file.len - (int(pos) - r.file.offset) && 0 <= n
